@@ -648,3 +648,86 @@ func ColumnIsFirstOccurrence(p *load.Prog, r *oblig.Report, rule string) {
 		r.OK(rule, construct, p.Pos(fn.Pos()), "call-scan", "strings.Index(line, symbol): first occurrence")
 	}
 }
+
+// MergeTextVerbatim (C16, merge errors "name the file and the line"): the line table a merge conflict is located in,
+// and the text handed to the module parser (whose syntax errors are forwarded with their positions), are the file's
+// contents as given — strings.Split(<module>.Contents, "\n") and <module>.Contents. A trimmed, re-encoded or
+// otherwise rewritten text shifts every reported line.
+func MergeTextVerbatim(p *load.Prog, r *oblig.Report, rule string) {
+	fn := p.Func("transformer", "TransformModuleFilesToModel")
+	if fn == nil {
+		r.Unknown(rule, "merge-text:anchor", "-", "TransformModuleFilesToModel not found")
+		return
+	}
+	seen := map[*ssa.Function]bool{fn: true}
+	work := []*ssa.Function{fn}
+	var funcs []*ssa.Function
+	for len(work) > 0 {
+		f := work[0]
+		work = work[1:]
+		funcs = append(funcs, f)
+		for _, b := range f.Blocks {
+			for _, in := range b.Instrs {
+				if ci, ok := in.(ssa.CallInstruction); ok {
+					if cal := ci.Common().StaticCallee(); cal != nil && cal.Pkg == fn.Pkg && !seen[cal] && len(cal.Blocks) > 0 && !ast.IsExported(cal.Name()) {
+						seen[cal] = true
+						work = append(work, cal)
+					}
+				}
+			}
+		}
+		for _, af := range f.AnonFuncs {
+			if !seen[af] {
+				seen[af] = true
+				work = append(work, af)
+			}
+		}
+	}
+	tables, parses := 0, 0
+	for _, f := range funcs {
+		for _, b := range f.Blocks {
+			for _, in := range b.Instrs {
+				call, ok := in.(*ssa.Call)
+				if !ok {
+					continue
+				}
+				cal := call.Common().StaticCallee()
+				if cal == nil {
+					continue
+				}
+				switch {
+				case cal.String() == "strings.Split" && len(call.Common().Args) == 2:
+					if c, ok := call.Common().Args[1].(*ssa.Const); !ok || c.Value == nil || constant.StringVal(c.Value) != "\n" {
+						continue
+					}
+					src := e5path.AccessPath(call.Common().Args[0])
+					if !strings.Contains(src, "Contents") {
+						// a split of something that is not (derived from) a module's text: not a line table
+						if _, isParam := call.Common().Args[0].(*ssa.Parameter); !isParam {
+							continue
+						}
+					}
+					tables++
+					construct := "merge-text:line-table:" + load.FuncName(f)
+					if strings.HasSuffix(src, ".Contents") {
+						r.OK(rule, construct, p.Pos(call.Pos()), "verbatim", "strings.Split("+src+", \"\\n\")")
+					} else {
+						r.Bad(rule, construct, p.Pos(call.Pos()), "the line table is strings.Split("+src+", \"\\n\"), not the split of the file's contents as given: every line reported for this file is counted in a rewritten text")
+					}
+				case cal.Name() == "TransformModularDSLToProto" && len(call.Common().Args) == 1:
+					parses++
+					src := e5path.AccessPath(call.Common().Args[0])
+					construct := "merge-text:parsed-text:" + load.FuncName(f)
+					if strings.HasSuffix(src, ".Contents") {
+						r.OK(rule, construct, p.Pos(call.Pos()), "verbatim", "the module parser is given "+src)
+					} else {
+						r.Bad(rule, construct, p.Pos(call.Pos()), "the module parser is given "+src+", not the file's contents as given: the positions of forwarded syntax errors and the lines found for conflicts no longer refer to the same text")
+					}
+				}
+			}
+		}
+	}
+	if tables == 0 || parses == 0 {
+		r.Unknown(rule, "merge-text:anchor", p.Pos(fn.Pos()), fmt.Sprintf("expected a line table and a parse of each module's contents (found %d and %d)", tables, parses))
+	}
+}
